@@ -386,7 +386,8 @@ Fixpoint pcluster (sp : pspec) (cs : str) : pcl :=
   | c :: r =>
       if N.eqb c 104 then PCHelp                                   (* -h *)
       else if mem_ch c (p_val_s sp) then match r with [] => PCNeed | _ => PCDone end
-      else if mem_ch c (p_bool_s sp) then match r with 61 :: _ => PCErr (* -b=value: no claim *) | _ => pcluster sp r end
+      else if mem_ch c (p_bool_s sp) then
+        if (match r with d :: _ => N.eqb d 61 | [] => false end) then PCErr (* -b=value: no claim *) else pcluster sp r
       else PCErr
   end.
 Fixpoint pflag (sp : pspec) (interspersed : bool) (l : list str) : pres :=
